@@ -79,7 +79,7 @@ def run(chk: harness.Check):
         "is edge-dominated by the flag-set outcome of a test of its own flag — through if/early-return/&&, bool::then closures and "
         "call sites; (D2) the set of control-relevant reads of an Extensions value equals the reviewed table; (D3) Extensions "
         "arguments handed to PullParser::new / parse_events / BlockParser::new come from the configured field, never from a constant; "
-        "(D4) flag constants have the documented bit layout. Necessary conditions only: parse results are not decided.")
+        "(D4) flag constants have the documented bit layout; (D8) nothing that parse_advanced_quantity runs builds a Value::Text, so a quantity whose value is not numeric keeps the core reading in every subset. Necessary conditions only: parse results are not decided.")
     chk.trusted = ["rustc MIR; bitflags-generated Extensions methods trusted by origin", "tables/gates.toml (reviewed gate sites)"]
     chk.analysed = {"facts": th, "gate_reads": len(G.gates), "wrappers": sorted(G.wrappers), "other_reads": len(G.other_reads)}
 
@@ -150,6 +150,7 @@ def run(chk: harness.Check):
     d5_core_separator(chk, F)
     d6_inline_same_text(chk, F)
     d7_range_partition(chk, F)
+    d8_advanced_numeric(chk, F)
 
     # ---- D3 propagation -----------------------------------------------------------------------
     allow_const = {a["function"]: a for a in tab.get("constant_extensions", [])}
@@ -239,6 +240,48 @@ def run(chk: harness.Check):
 def _short(ck):
     from inventory import short
     return short(ck)
+
+
+def d8_advanced_numeric(chk, F):
+    """`{a few words}` and `{1,5 dl}` are core syntax: one text value. The ADVANCED_UNITS reading may only take a quantity over
+    when its value part is a number or a range — nothing that parse_advanced_quantity runs (resolved calls, closures) builds a
+    `Value::Text`, so a quantity whose value is not numeric falls back to the regular reading in every extension subset."""
+    from cfgq import aggregates
+    fs = [g for g in F.find("parser::quantity::parse_advanced_quantity") if not g.is_closure()]
+    if len(fs) != 1:
+        chk.fail("anchor-missing", "parse_advanced_quantity", "", "anchor-missing: parser::quantity::parse_advanced_quantity not found")
+        return
+    root = fs[0]
+    seen, work, via = set(), [g.key for g in F.region_funcs(root.key)], {}
+    while work:
+        k = work.pop()
+        if k in seen or k not in F.funcs or F.funcs[k].crate != root.crate:
+            continue
+        seen.add(k)
+        for kind, tgt, _, _ in F.call_edges(F.funcs[k]):
+            if kind != "cha" and tgt not in seen:
+                via.setdefault(tgt, k)
+                work.append(tgt)
+    numeric = [k for k in seen if k.endswith(("parser::quantity::numeric_value", "parser::quantity::range_value"))]
+    chk.floor("C02.D8-advanced-numeric", "numeric readers reached from parse_advanced_quantity", len(numeric), 2, f"{root.file}:{root.line}")
+    bad = []
+    for k in sorted(seen):
+        g = F.funcs[k]
+        for i, j, st in g.iter_stmts():
+            rv = st.get("rv", {})
+            if rv.get("k") == "agg" and rv.get("agg") == "adt" and norm(rv["adt"]).endswith("quantity::Value") and rv.get("variant") == "Text":
+                bad.append((g, st))
+    for g, st in bad:
+        chain, k = [], g.key
+        while k in via and len(chain) < 6:
+            chain.append(_short(k))
+            k = via[k]
+        chk.fail("C02.D8-advanced-numeric", f"parse_advanced_quantity|{region_of(g.key)}", f"{g.file}:{st.get('line')}",
+                 f"the ADVANCED_UNITS reading can produce a text value ({' ← '.join(chain) or _short(g.key)}): a core quantity whose value is "
+                 "not a number, e.g. `{1,5 dl}`, is then split into value and unit only when the extension is on")
+    if not bad:
+        chk.ok("C02.D8-advanced-numeric", "parse_advanced_quantity|no-text", f"{root.file}:{root.line}: {len(seen)} functions reachable from "
+               "parse_advanced_quantity, none builds Value::Text")
 
 
 def d7_range_partition(chk, F):
